@@ -19,18 +19,24 @@ EXPLANATION = (
     "the power of A multiplying table entry C[r,c] must be c, every non-zero entry must occur exactly once, in block r, scaled by "
     "1/sqrt(2r+1).  (3) Scaling-and-squaring order (A/2^s with B/sqrt(2^s); doubling stacks with the pre-update exponential).  "
     "(4) Structure of the Wiener/exponential transitions (sqrt|dt|, calibrated and base scale each once; reciprocal preconditioner; "
-    "to_latent = p_inv, to_observed = p).  (5) Matern / Ornstein-Uhlenbeck drift coefficients and agreement of the *_diffuse twins."
+    "to_latent = p_inv, to_observed = p).  (5) Matern / Ornstein-Uhlenbeck drift coefficients and agreement of the *_diffuse twins.  "
+    "(6) The Cholesky factor of the Hilbert matrix: every fori_loop of cholesky_hilbert is interpreted once on a symbolic index and carry and matched against Kahan's recurrence "
+    "(write index, read index = previous write, ratio identity as rational functions of the index and the shift, first value, bounds, final scaling and transposition): by induction the "
+    "loops compute the closed form for every n, and the closed form is re-proved to be the Cholesky factor exactly for n <= 8.  (7) The integrated Wiener process: entry (i, j) of the "
+    "transition derived through the index semantics of arange / None-indexing / vmap(in_axes, out_axes) / flip equals (q-i)!/((j-i)!(q-j)!), the Taylor transition in the preconditioner's "
+    "coordinates; the noise factor reaches the Hilbert factor of size q+1 through Gram-preserving steps and one row flip, so its Gram matrix is 1/(2q+1-i-j); all three factories build "
+    "both tables and the preconditioner for len(tcoeffs)-1 derivatives."
 )
 LEVEL = "other"
-TECHNIQUE = "constant folding of the source tables with exact rational arithmetic against closed forms; abstract interpretation with a polynomial-degree domain; value-numbering normal form"
+TECHNIQUE = "constant folding of the source tables with exact rational arithmetic against closed forms; abstract interpretation with a polynomial-degree domain; value-numbering normal form; loop-invariant (recurrence) matching with rational-function identities; symbolic index semantics of vmap/flip/broadcasting"
 LEVEL_TEXT = (
     "The tables are finite and are enumerated completely (exact arithmetic, no tolerance); the degree/coefficient bookkeeping of the "
     "initialisers is decided symbolically for all matrices A, B.  Numerical agreement with expm / closed-form Gramians is not claimed."
 )
 LEVEL_NOTE = (
     "Trusted: the closed forms themselves (derived in DESIGN.md 5/C09; reproduce all five tables), linalg.vector_dot/@ as matrix product, "
-    "solve(M, R) = M^-1 R, qr_r as triangularisation.  Not decided: eta thresholds, rounding, and the values of the two tables that system_matrices_1d_iwp computes at trace time by numeric code "
-    "(the flipped Pascal matrix from factorials and the Cholesky factor of the Hilbert matrix from Kahan's recurrence followed by a QR step): deciding them would mean executing that code. "
+    "solve(M, R) = M^-1 R, qr_r as triangularisation.  Kahan's closed form of the Hilbert Cholesky factor (re-proved exactly for n <= 8, K <= 3 on every run); fori_loop(lo, hi, body, init) runs body for lo..hi-1; vmap(in_axes, out_axes) index semantics.  "
+    "Not decided: eta thresholds, rounding (the Hilbert factor loses accuracy for n >~ 15 in float64, as its docstring says).  "
     "Composition over h1 then h2 is a consequence of exactness per step (semigroup property of the SDE solution) and is not checked separately."
 )
 
@@ -437,6 +443,10 @@ def run(chk, S: Session):
     scaling_rules(chk, S, r3)
     transition_rules(chk, S, r4)
     drift_rules(chk, S, r5)
+    from . import c09_iwp
+
+    c09_iwp.hilbert_rules(chk, S)
+    c09_iwp.iwp_rules(chk, S)
 
 
 def scaling_rules(chk, S, r3):
